@@ -24,6 +24,7 @@ EXTENDS Naturals, Integers, Sequences, FiniteSets, TLC, Json
 CONSTANTS N,        \* number of inputs
           Vals,     \* values written to inputs (0 = null)
           Def,      \* mux default
+          MaxEvents, MaxWrites,   \* bounds: events per behaviour, chan_set calls per event
           Variant   \* "code" | "no_disable" | "read_before" | "stale_select" (negative configurations)
 
 Inputs == 1..N
@@ -85,7 +86,7 @@ Init == /\ val = [c \in Chans |-> 0] /\ lastv = [c \in Chans |-> 0]
 
 \* a write of the current event
 Write(c, v) ==
-   /\ ~failed /\ Len(ev) < 3
+   /\ ~failed /\ Len(ev) < MaxWrites
    /\ LET s == ChanSet([val |-> val, dirty |-> dirty, ok |-> TRUE, sel |-> selected], c, v) IN
       /\ val' = s.val /\ dirty' = s.dirty /\ failed' = ~s.ok
    /\ ev' = Append(ev, <<c, v>>)
@@ -101,7 +102,7 @@ Propagate ==
       /\ selw' = (selw \/ (s.ok /\ IsDirty(s.dirty, "sel")))
    /\ log' = Append(log, ev) /\ ev' = <<>>
 
-Next == \/ \E v \in (0..N) \cup {N + 1} : Write("sel", v)
+Next == \/ \E v \in 0..N : Write("sel", v)      \* 0 = null (selects nothing), i = input i
         \/ \E i \in Inputs, v \in Vals : Write(In(i), v)
         \/ Propagate
 Spec == Init /\ [][Next]_vars
@@ -117,8 +118,10 @@ NoStaleCallback == Quiescent => selected = SelectOf(val["sel"])
 DirtyListDrains == Quiescent => dirty = <<>>
 
 \* export of complete event sequences with the expected output after each event
-CONSTANT MaxEvents
 Bound == Len(log) <= MaxEvents
-Export == (Quiescent /\ Len(log) = MaxEvents) =>
-             PrintT(<<"TR", ToJson([events |-> log, out |-> val["out"]])>>)
+\* the histories are ghosts: states with the same channel contents behave alike
+MCView == <<selw, val, lastv, dirty, selected, failed, Len(ev), Len(log)>>
+Export == (((Quiescent /\ Len(log) = MaxEvents) \/ failed)) =>
+             PrintT(<<"TR", ToJson([events |-> IF ev = <<>> THEN log ELSE Append(log, ev),
+                                    out |-> val["out"], failed |-> failed])>>)
 =============================================================================
